@@ -10,7 +10,7 @@ REGISTRATION = {
             "sizes, alignments): declared offsets are aligned and the tensor's bytes are found there "
             "(bytes_at_declared_offset); full decoder round trip decode(encode kvs ts) = written keys/values + parameter "
             "count, tensor infos with reversed shapes and declared offsets, aligned data start, end offset = file length "
-            "(decode_encode; keys given in key order and distinct, lengths/counts below 2^63). Model = code is checked byte-for-byte on thousands of generated files per run, and the "
+            "(decode_encode; keys given in key order and distinct, lengths/counts below 2^63); create's ggufLayers takes such a file as exactly one layer, the uploaded blob itself (create_takes_written_file_whole). Model = code is checked byte-for-byte on thousands of generated files per run, and the "
             "property predicate is evaluated on the real decoder's view of the real writer's file.",
     "design_ref": "DESIGN.md §5 C05",
     "note": COMMON_NOTE + "Modelled, not verified: the tensor sort (any permutation is covered by the theorem; "
@@ -23,6 +23,7 @@ THEOREMS = [
     "OllamaVerif.C05.bytes_at_declared_offset",
     "OllamaVerif.C05.decode_encode",
     "OllamaVerif.C05.end_offset_is_file_length",
+    "OllamaVerif.C05.create_takes_written_file_whole",
     "OllamaVerif.Gguf.tensorSize_reverse",
     "OllamaVerif.C05.F1_pinned_offsets_alias",
     "OllamaVerif.Tie.C05.type_table_complete",
